@@ -8,6 +8,10 @@ package main
 //   call t <op>            an operation is invoked by client t
 //   cmd t | <name> <reply> client t's next command was executed and answered
 //   ret t | <result>       the operation returned
+//   tick d | now <n>       (timed cases) the virtual clock of the client AND the server's clock advance by d ms;
+//                          only while no client stands between computing a relative TTL and the server applying it
+// Expiries are absolute virtual milliseconds (`x<abs>` / `k=v@<abs>`); write commands show their TTL (`px<ttl>`),
+// records their stored expiry (`val:ver@<abs>`).
 // Versions are canonicalised to the ordinal of the write that stored them (1, 2, …); a version string
 // that is written twice is reported by the monitor C02-fresh-version.
 
@@ -16,6 +20,7 @@ import (
 	"errors"
 	"fmt"
 	"strings"
+	"sync/atomic"
 	"time"
 
 	gerrors "github.com/acquirecloud/golibs/errors"
@@ -43,7 +48,8 @@ type rcCase struct {
 	verNum  map[string]int
 	nextVer int
 	failed  bool
-}
+	now     int64 // virtual milliseconds since rcBase (atomic)
+	}
 
 func (c *rcCase) ver(s string) int {
 	if n, ok := c.verNum[s]; ok {
@@ -62,6 +68,49 @@ func (c *rcCase) wrote(s string) int {
 	return c.nextVer
 }
 
+var rcBase = time.Date(2030, 1, 1, 0, 0, 0, 0, time.UTC)
+
+// (switched on together with the timed Lean model RedisConc)
+const rcTimedEnabled = true
+
+func rcAbs(t *time.Time) string {
+	if t == nil {
+		return ""
+	}
+	return fmt.Sprintf("@%d", t.Sub(rcBase)/time.Millisecond)
+}
+
+// rcTTL reads the TTL argument (PX ms / EX s) of a SET / SETNX-style command: " px<ms>" or ""
+func rcTTL(args []interface{}) string {
+	for i := 3; i+1 < len(args); i++ {
+		name, _ := args[i].(string)
+		var n int64
+		switch v := args[i+1].(type) {
+		case int64:
+			n = v
+		case int:
+			n = int64(v)
+		default:
+			continue
+		}
+		switch strings.ToLower(name) {
+		case "px":
+			return fmt.Sprintf(" px%d", n)
+		case "ex":
+			return fmt.Sprintf(" px%d", n*1000)
+		}
+	}
+	return ""
+}
+
+func rcExp(ms int) *time.Time {
+	if ms == 0 {
+		return nil
+	}
+	t := rcBase.Add(time.Duration(ms) * time.Millisecond)
+	return &t
+}
+
 type rcHook struct{ c *rcCase }
 
 var rcGated = map[string]bool{"setnx": true, "get": true, "mget": true, "set": true, "mset": true, "del": true, "watch": true}
@@ -75,11 +124,11 @@ func (h rcHook) BeforeProcess(ctx context.Context, cmd goredis.Cmder) (context.C
 }
 
 func (h rcHook) recOf(x any) string {
-	v, ver := kredis.VerifDecode(x)
+	v, ver, exp := kredis.VerifDecodeExp(x)
 	if v == "" {
 		v = "-"
 	}
-	return fmt.Sprintf("%s:%d", v, h.c.ver(ver))
+	return fmt.Sprintf("%s:%d%s", v, h.c.ver(ver), rcAbs(exp))
 }
 
 func (h rcHook) AfterProcess(ctx context.Context, cmd goredis.Cmder) error {
@@ -95,10 +144,11 @@ func (h rcHook) AfterProcess(ctx context.Context, cmd goredis.Cmder) error {
 		return nil
 	}
 	switch cm := cmd.(type) {
-	case *goredis.BoolCmd: // setnx
+	case *goredis.BoolCmd: // setnx (with an expiry go-redis sends it as SET … PX n NX)
+		label = "setnx"
 		if cm.Val() {
 			_, ver := kredis.VerifDecode(cmd.Args()[2])
-			label += fmt.Sprintf(" 1 %d", c.wrote(ver))
+			label += fmt.Sprintf(" 1 %d%s", c.wrote(ver), rcTTL(cmd.Args()))
 		} else {
 			label += " 0"
 		}
@@ -122,7 +172,7 @@ func (h rcHook) AfterProcess(ctx context.Context, cmd goredis.Cmder) error {
 		switch cmd.Name() {
 		case "set":
 			_, ver := kredis.VerifDecode(cmd.Args()[2])
-			label += fmt.Sprintf(" OK %d", c.wrote(ver))
+			label += fmt.Sprintf(" OK %d%s", c.wrote(ver), rcTTL(cmd.Args()))
 		case "mset":
 			var p []string
 			a := cmd.Args()
@@ -168,7 +218,7 @@ func (h rcHook) AfterProcessPipeline(ctx context.Context, cmds []goredis.Cmder) 
 		label += " error:" + strings.ReplaceAll(err.Error(), " ", "_")
 	} else {
 		_, ver := kredis.VerifDecode(cmds[1].Args()[2])
-		label += fmt.Sprintf(" ok %d", c.wrote(ver))
+		label += fmt.Sprintf(" ok %d%s", c.wrote(ver), rcTTL(cmds[1].Args()))
 	}
 	c.events <- rcEvent{t: t, kind: "after", label: label}
 	return nil
@@ -181,7 +231,11 @@ type rcOp struct {
 	val  string
 	vals []string
 	ver  string // cas: "cur" = the version this client saw last for the key, "stale" = an older one, or a literal
-}
+	ttl  int    // timed cases: the write asks for expiry now+ttl (0 = none); exp is fixed when the operation is invoked
+	ttls []int  // putmany: per record
+	exp  int    // absolute expiry in virtual ms (0 = none)
+	exps []int
+	}
 
 func (c *rcCase) result(o *rcOp, ver string, rec kvs.Record, recs []*kvs.Record, err error) string {
 	val := func(b []byte) string {
@@ -205,14 +259,14 @@ func (c *rcCase) result(o *rcOp, ver string, rec kvs.Record, recs []*kvs.Record,
 	case "create", "put", "cas":
 		return fmt.Sprintf("okVer %d", c.ver(ver))
 	case "get":
-		return fmt.Sprintf("rec %s:%d", val(rec.Value), c.ver(rec.Version))
+		return fmt.Sprintf("rec %s:%d%s", val(rec.Value), c.ver(rec.Version), rcAbs(rec.ExpiresAt))
 	case "getmany":
 		var p []string
 		for _, r := range recs {
 			if r == nil {
 				p = append(p, "nil")
 			} else {
-				p = append(p, fmt.Sprintf("%s:%d", val(r.Value), c.ver(r.Version)))
+				p = append(p, fmt.Sprintf("%s:%d%s", val(r.Value), c.ver(r.Version), rcAbs(r.ExpiresAt)))
 			}
 		}
 		return "recs [" + strings.Join(p, ",") + "]"
@@ -220,16 +274,22 @@ func (c *rcCase) result(o *rcOp, ver string, rec kvs.Record, recs []*kvs.Record,
 	return "ok"
 }
 
-func runRedisCmdCase(ctx *Ctx, progs [][]*rcOp, maxSteps int, sched []int) {
+// runRedisCmdCase: progs = the clients' programs; sched = a directed prefix of scheduler choices (k < n: client k
+// invokes its next operation; n+k: client k's parked command is released; 2n+d: the clock advances by d ms);
+// timed = the scheduler may also advance the clock on its own.
+func runRedisCmdCase(ctx *Ctx, progs [][]*rcOp, maxSteps int, sched []int, timed bool) {
 	n := len(progs)
 	c := &rcCase{ctx: ctx, events: make(chan rcEvent), verNum: map[string]int{}}
 	mr, err := miniredis.Run()
 	if err != nil {
 		panic(err)
 	}
+	mr.SetTime(rcBase)
 	st := kredis.New(&goredis.Options{Addr: mr.Addr()})
 	kredis.VerifAddHook(st, rcHook{c})
-	defer func() { kredis.VerifClose(st); mr.Close() }()
+	kredis.VerifSetClock(func() time.Time { return rcBase.Add(time.Duration(atomic.LoadInt64(&c.now)) * time.Millisecond) })
+	defer func() { kredis.VerifClose(st); mr.Close(); kredis.VerifSetClock(nil) }()
+	usesTime := timed
 	ctx.R.Case(n)
 	type start struct {
 		o   *rcOp
@@ -249,22 +309,26 @@ func runRedisCmdCase(ctx *Ctx, progs [][]*rcOp, maxSteps int, sched []int) {
 				var err error
 				switch o.kind {
 				case "create":
-					ver, err = st.Create(cx, kvs.Record{Key: o.key, Value: []byte(o.val)})
+					ver, err = st.Create(cx, kvs.Record{Key: o.key, Value: []byte(o.val), ExpiresAt: rcExp(o.exp)})
 				case "get":
 					rec, err = st.Get(cx, o.key)
 				case "getmany":
 					recs, err = st.GetMany(cx, o.keys...)
 				case "put":
-					rec, err = st.Put(cx, kvs.Record{Key: o.key, Value: []byte(o.val)})
+					rec, err = st.Put(cx, kvs.Record{Key: o.key, Value: []byte(o.val), ExpiresAt: rcExp(o.exp)})
 					ver = rec.Version
 				case "putmany":
 					var rs []kvs.Record
 					for i, k := range o.keys {
-						rs = append(rs, kvs.Record{Key: k, Value: []byte(o.vals[i])})
+						r := kvs.Record{Key: k, Value: []byte(o.vals[i])}
+						if i < len(o.exps) {
+							r.ExpiresAt = rcExp(o.exps[i])
+						}
+						rs = append(rs, r)
 					}
 					err = st.PutMany(cx, rs)
 				case "cas":
-					rec, err = st.CasByVersion(cx, kvs.Record{Key: o.key, Value: []byte(o.val), Version: s.ver})
+					rec, err = st.CasByVersion(cx, kvs.Record{Key: o.key, Value: []byte(o.val), Version: s.ver, ExpiresAt: rcExp(o.exp)})
 					ver = rec.Version
 				case "delete":
 					err = st.Delete(cx, o.key)
@@ -301,6 +365,15 @@ func runRedisCmdCase(ctx *Ctx, progs [][]*rcOp, maxSteps int, sched []int) {
 	var history []*kvOp
 	pcIdx := make([]int, n)      // next op of each client
 	state := make([]string, n)   // idle | gate
+	gateAt := make([]string, n)  // the command a parked client is about to send
+	cur := make([]*rcOp, n)      // the operation a client is in the middle of
+	for _, pr := range progs {
+		for _, o := range pr {
+			if o.ttl != 0 || len(o.ttls) > 0 {
+				usesTime = true
+			}
+		}
+	}
 	lastSeen := map[string]string{} // key -> a version string some client has seen stored (for cas arguments)
 	prevSeen := map[string]string{}
 	wait := func(t int) (rcEvent, bool) {
@@ -327,8 +400,10 @@ func runRedisCmdCase(ctx *Ctx, progs [][]*rcOp, maxSteps int, sched []int) {
 		switch e.kind {
 		case "gate":
 			state[t] = "gate"
+			gateAt[t] = e.label
 		case "done":
 			state[t] = "idle"
+			cur[t] = nil
 			ctx.R.Op(fmt.Sprintf("ret %d", t), e.label)
 			if e.kop != nil {
 				e.kop.inv, e.kop.ret = invAt[t], tick()
@@ -367,7 +442,30 @@ func runRedisCmdCase(ctx *Ctx, progs [][]*rcOp, maxSteps int, sched []int) {
 		if len(choices) == 0 {
 			break
 		}
+		// the clock may advance only while no client stands between computing a relative TTL and the server
+		// applying it (parked at SET / SETNX / EXEC), and never up to or past the expiry an operation in
+		// progress asks for (the client would then clamp the TTL to 1 ms: outside the model)
+		now := int(atomic.LoadInt64(&c.now))
+		maxTick := 1 << 30
+		for t := 0; t < n; t++ {
+			if state[t] == "gate" && (gateAt[t] == "set" || gateAt[t] == "setnx" || gateAt[t] == "exec") {
+				maxTick = 0
+			}
+			if o := cur[t]; o != nil {
+				for _, e := range append([]int{o.exp}, o.exps...) {
+					if e != 0 && e-now-1 < maxTick {
+						maxTick = e - now - 1
+					}
+				}
+			}
+		}
+		tickOK := func(d int) bool { return d > 0 && d <= maxTick }
 		ch := choices[ctx.Rnd.Intn(len(choices))]
+		if timed && ctx.Rnd.Chance(1, 6) {
+			if d := []int{2, 4, 10, 20, 40}[ctx.Rnd.Intn(5)]; tickOK(d) {
+				ch = 2*n + d
+			}
+		}
 		// a directed prefix: take the prescribed choice while it is enabled
 		if len(sched) > 0 {
 			want := sched[0]
@@ -377,24 +475,49 @@ func runRedisCmdCase(ctx *Ctx, progs [][]*rcOp, maxSteps int, sched []int) {
 					ch = want
 				}
 			}
+			if want >= 2*n && tickOK(want-2*n) {
+				ch = want
+			}
 		}
-		if ch < n {
+		if ch >= 2*n {
+			d := ch - 2*n
+			mr.FastForward(time.Duration(d) * time.Millisecond)
+			ctx.R.Op(fmt.Sprintf("tick %d", d), fmt.Sprintf("now %d", atomic.AddInt64(&c.now, int64(d))))
+			ctx.R.Nontrivial("the clock advanced")
+		} else if ch < n {
 			t := ch
 			o := progs[t][pcIdx[t]]
 			pcIdx[t]++
 			arg := ""
 			text := ""
+			// expiries are odd, the clock is always even: no operation ever runs AT an expiry instant (the contract
+			// keeps a record through its expiry instant, Redis drops it there: C03's concern, not this one's)
+			xs := ""
+			if o.ttl != 0 {
+				o.exp = now + o.ttl
+				xs = fmt.Sprintf(" x%d", o.exp)
+			}
+			cur[t] = o
 			switch o.kind {
 			case "create", "put":
-				text = fmt.Sprintf("%s %s %s", o.kind, o.key, o.val)
+				text = fmt.Sprintf("%s %s %s%s", o.kind, o.key, o.val, xs)
 			case "get", "delete":
 				text = fmt.Sprintf("%s %s", o.kind, o.key)
 			case "getmany":
 				text = "getmany " + strings.Join(o.keys, ",")
 			case "putmany":
 				var p []string
+				o.exps = nil
 				for i, k := range o.keys {
-					p = append(p, k+"="+o.vals[i])
+					e := ""
+					if i < len(o.ttls) {
+						o.exps = append(o.exps, 0)
+						if o.ttls[i] != 0 {
+							o.exps[i] = now + o.ttls[i]
+							e = fmt.Sprintf("@%d", o.exps[i])
+						}
+					}
+					p = append(p, k+"="+o.vals[i]+e)
 				}
 				text = "putmany " + strings.Join(p, ",")
 			case "cas":
@@ -407,7 +530,7 @@ func runRedisCmdCase(ctx *Ctx, progs [][]*rcOp, maxSteps int, sched []int) {
 				if arg == "" {
 					arg = "never-issued"
 				}
-				text = fmt.Sprintf("cas %s %d %s", o.key, c.ver(arg), o.val)
+				text = fmt.Sprintf("cas %s %d %s%s", o.key, c.ver(arg), o.val, xs)
 			}
 			busy := 0
 			for u := 0; u < n; u++ {
@@ -478,7 +601,9 @@ func runRedisCmdCase(ctx *Ctx, progs [][]*rcOp, maxSteps int, sched []int) {
 			allDone = false
 		}
 	}
-	if allDone && len(history) > 0 && len(history) <= 14 && linearize(history) == nil {
+	// (timed cases are left to the command-level replay: the Go-side search knows neither clock nor expiry,
+	// and a PutMany with an expiring record is a sequence of Puts, not one atomic write)
+	if allDone && !usesTime && len(history) > 0 && len(history) <= 14 && linearize(history) == nil {
 		ctx.R.Quiet("mon C02-linearizable", "no sequential order compatible with real time explains this history: "+describeHistory(history))
 	}
 	if raced {
@@ -552,7 +677,52 @@ func runRedisCmd(ctx *Ctx) {
 				sched = sched[:r.Intn(len(sched)+1)] // random continuation from some point on
 			}
 		}
-		runRedisCmdCase(ctx, progs, 60, sched)
+		timed := false
+		if rcTimedEnabled && len(sched) == 0 && r.Chance(2, 5) {
+			// timed case: writes ask for expiries, the scheduler advances the clock between commands
+			timed = true
+			ttl := func() int { return []int{0, 0, 3, 7, 15, 31, 101}[r.Intn(7)] }
+			for _, pr := range progs {
+				for _, o := range pr {
+					switch o.kind {
+					case "create", "put", "cas":
+						o.ttl = ttl()
+					case "putmany":
+						o.ttls = []int{ttl(), ttl()}
+						if r.Chance(1, 2) {
+							o.vals = []string{o.vals[0], nv()}
+						}
+					}
+				}
+			}
+			if r.Chance(1, 3) {
+				n = 2
+				putx := func(t int) *rcOp { return &rcOp{kind: "put", key: "a", val: nv(), ttl: t} }
+				get := func() *rcOp { return &rcOp{kind: "get", key: "a"} }
+				switch r.Intn(6) {
+				case 0: // a record expires between two Gets of another client
+					progs = [][]*rcOp{{putx(3)}, {get(), get()}}
+					sched = []int{0, 2, 1, 3, 2*n + 4, 1, 3}
+				case 1: // Create: SETNX finds the key, the record expires, GET finds nothing, the second SETNX wins
+					progs = [][]*rcOp{{putx(3)}, {{kind: "create", key: "a", val: nv(), ttl: 31}}}
+					sched = []int{0, 2, 1, 3, 2*n + 4, 3, 3}
+				case 2: // CAS: WATCH, the record expires, GET finds nothing: ErrNotExist
+					progs = [][]*rcOp{{putx(3), {kind: "cas", key: "a", val: nv(), ver: "cur", ttl: 7}}, {get()}}
+					sched = []int{0, 2, 0, 2, 2*n + 4, 2}
+				case 3: // PutMany with an expiring record = a sequence of SETs; a Put of the first key lands between them
+					progs = [][]*rcOp{{{kind: "putmany", keys: []string{"a", "b"}, vals: []string{nv(), nv()}, ttls: []int{7, 0}}}, {putx(0), get()}}
+					sched = []int{0, 2, 1, 3, 2}
+				case 4: // … and a CAS watching the second key loses its EXEC to the batch's second SET
+					progs = [][]*rcOp{{{kind: "put", key: "b", val: nv()}, {kind: "cas", key: "b", val: nv(), ver: "cur", ttl: 15}},
+						{{kind: "putmany", keys: []string{"a", "b"}, vals: []string{nv(), nv()}, ttls: []int{7, 3}}}}
+					sched = []int{0, 2, 0, 2, 2, 1, 3, 3, 2, 2, 2}
+				case 5: // an expired record is created anew with another expiry; a CAS on the old version loses
+					progs = [][]*rcOp{{putx(3), {kind: "create", key: "a", val: nv(), ttl: 15}, get()}, {{kind: "getmany", keys: []string{"a", "b"}}, {kind: "cas", key: "a", val: nv(), ver: "cur"}}}
+					sched = []int{0, 2, 1, 3, 2*n + 10, 0, 2, 1, 3, 3}
+				}
+			}
+		}
+		runRedisCmdCase(ctx, progs, 60, sched, timed)
 	}
 }
 
